@@ -95,6 +95,9 @@ Responses(host) == UNION {{[scs |-> scs, code |-> c, loc |-> l, read |-> rd] : s
                               l \in (IF c \in RedirectCodes THEN Locs ELSE {NoLoc}), rd \in (IF c \in {307, 308} THEN Reads ELSE {FALSE})} : c \in Codes}
 NoReq == [m |-> "", sch |-> "", host |-> <<>>, path |-> <<>>, qs |-> <<>>, body |-> <<>>]
 AllHosts == Hosts \cup {l.host : l \in {m \in Locs : m.form = "abs"}}
+\* the host relation of redirects, tabulated once (TLCEval forces the explicit table; a plain function definition stays lazy)
+RelITab == TLCEval([p \in AllHosts \X AllHosts |-> HostRelI(p[1], p[2])])
+RelCTab == TLCEval([p \in AllHosts \X AllHosts |-> HostRel(p[1], p[2])])
 MaxChain == Cardinality(Locs) * Cardinality(Codes \cap RedirectCodes)
 
 \* ---------------------------------------------------------------- the state machine
@@ -120,7 +123,7 @@ Respond == /\ phase = "wait" /\ nresp < MaxResp
                     redirect == r.code \in RedirectCodes
                     tgt == Target(r.loc, cur)
                     \* ---- implementation shape (Client.open / resolve_redirect)
-                    rel == HostRelI(tgt.host, cur.host)
+                    rel == RelITab[<<tgt.host, cur.host>>]
                     out == IF ~redirect THEN "done"
                            ELSE IF Variant # "noloop" /\ Seen(hist, r) THEN "loop"
                            ELSE IF rel = "other" THEN "external"
@@ -131,7 +134,7 @@ Respond == /\ phase = "wait" /\ nresp < MaxResp
                     h2 == Append(hist, [code |-> r.code, loc |-> r.loc])
                     sent == IF follow THEN SendI(IF Variant = "stale" THEN jar ELSE j2, tgt.host, tgt.path) ELSE {}
                     \* ---- contract
-                    relC == HostRel(tgt.host, cur.host)
+                    relC == RelCTab[<<tgt.host, cur.host>>]
                     hostC == CASE relC = "same" -> "follow" [] relC = "sub" -> (IF allow THEN "follow" ELSE "subdomain") [] OTHER -> "external"
                     viol == (IF follow /\ sent # Project(cj2, tgt.host, tgt.path) THEN {"SentOK"} ELSE {})        \* cookies set on the redirect response go to the next hop
                       \cup (IF follow /\ (nxt.m # NextMethod(r.code, cur.m) \/ nxt.body # NextBody(r.code, cur.body)) THEN {"MethodBodyOK"} ELSE {})
